@@ -85,6 +85,18 @@ def attempts():
     add("generic-default-ctor", GB, "", "GB<qubit> o = new GB<qubit>(a);", "x(o.v);", "destroy o;", ctl_attempt="GB<qubit> o = new GB<qubit>();")
     add("generic-local", GEN % "public function keep(T p) -> void { T w = p; }", "Box<qubit> o = new Box<qubit>();", "o.keep(a);", "", "")
     add("generic-from-outside", GEN % "", "Box<qubit> o = new Box<qubit>();", "o.v = a;", "x(o.v);", "destroy o;")
+    # ... and a whole register through a type parameter instantiated with qubit[]: if the object took the register over, destroying it
+    # releases the register's qubits, the next two declarations recycle them, and a gate on those shows up in the register
+    DROPR = ("destroy o; qubit e_; x(e_); qubit f_; x(f_); bit t_ = measure aa[0]; bit u_ = measure aa[1]; "
+             "if (t_ == 1b) { x(a); } if (u_ == 1b) { reset a; x(a); }")
+    for tgt in ("v", "this.v"):
+        for pn, st in positions("%s = p" % tgt):
+            add("generic-register-field/%s/%s" % (tgt, pn), GEN % ("public function bind(T p) -> void { %s }" % st),
+                "Box<qubit[]> o = new Box<qubit[]>(); qubit[2] aa;", "o.bind(aa);", "", DROPR)
+    add("generic-register-ctor", GEN % "public constructor(T p) -> Box<T> { this.v = p; }", "qubit[2] aa;", "Box<qubit[]> o = new Box<qubit[]>(aa);", "", DROPR,
+        ctl_attempt="Box<qubit[]> o = new Box<qubit[]>();")
+    add("generic-register-default-ctor", GB, "qubit[2] aa;", "GB<qubit[]> o = new GB<qubit[]>(aa);", "", DROPR, ctl_attempt="GB<qubit[]> o = new GB<qubit[]>();")
+    add("generic-register-from-outside", GEN % "", "Box<qubit[]> o = new Box<qubit[]>(); qubit[2] aa;", "o.v = aa;", "", DROPR)
     return out
 
 
